@@ -40,6 +40,10 @@ func Wrap(c proto.Column, label string) (*Col, error) {
 	return wrapT(c, t, label)
 }
 
+// WrapAs wraps c but canonicalises its values under type t rather than under the type the
+// column itself reports: what the column's rows mean when read as values of t.
+func WrapAs(c proto.Column, t *refcol.Type, label string) (*Col, error) { return wrapT(c, t, label) }
+
 func wrapT(c proto.Column, t *refcol.Type, label string) (*Col, error) {
 	col := &Col{C: c, T: t, Label: label}
 	if tu, ok := c.(proto.ColTuple); ok {
